@@ -131,7 +131,14 @@ def _exec_case(mod, case):
                                       "when": "library raised " + type(root).__name__}),
                              "detail": msg[-600:] + " | root: " + repr(root)[:300]}]}
         else:
-            raise
+            audit = _type_audit(mod, case)
+            if audit is None:
+                raise
+            res = {"states": 1, "transitions": 1, "nontrivial": True, "outcome": "returned-non-array",
+                   "viol": [{"oracle": "returned-non-array",
+                             "key": {"site": audit[0], "when": "called on an array"},
+                             "detail": "%s applied to an array of shape %s returned a %s instead of an array (the check then failed with %s: %s)" % (
+                                 audit[0], audit[1], audit[2], type(e).__name__, str(e)[:120])}]}
     res.setdefault("viol", [])
     res.setdefault("states", 1)
     res.setdefault("transitions", 1)
@@ -141,6 +148,38 @@ def _exec_case(mod, case):
         res["digest"] = hashlib.sha1(jdump(
             {k: res[k] for k in res if k not in ("digest",)}).encode()).hexdigest()[:16]
     return res
+
+
+def _type_audit(mod, case):
+    """A check crashed outside the library.  Before calling that a harness error, re-execute the case with Linop.__call__
+    and Prox.__call__ instrumented: if the library handed back something that is not an array where an array went in,
+    that is the library's doing (and the reason the check's array code fell over)."""
+    import numpy as np
+    try:
+        from sigpy import linop as L, prox as P
+    except Exception:
+        return None
+    found = []
+    saved = (L.Linop.__call__, P.Prox.__call__)
+
+    def wrap(orig, kind):
+        def call(self, *a, **k):
+            out = orig(self, *a, **k)
+            arrs = [x for x in a if isinstance(x, np.ndarray)]
+            if arrs and not isinstance(out, np.ndarray) and not np.isscalar(out) and not found:
+                found.append(("%s %s" % (kind, type(self).__name__), list(arrs[-1].shape), type(out).__name__))
+            return out
+        return call
+    L.Linop.__call__ = wrap(saved[0], "Linop")
+    P.Prox.__call__ = wrap(saved[1], "Prox")
+    try:
+        try:
+            mod.run_case(case, _SEED)
+        except Exception:
+            pass
+    finally:
+        L.Linop.__call__, P.Prox.__call__ = saved
+    return found[0] if found else None
 
 
 def _chain(e):
